@@ -8,6 +8,8 @@ import re
 from . import common as cm
 
 REQ = ["Rename.Replace", "Rename.WordSub", "Rename.Wire"]
+ANCHORS = ["pyflyby._importstmt:Import.replace", "pyflyby._importstmt:Import.from_parts",
+           "pyflyby._imports2s:transform_imports", "pyflyby._imports2s:canonicalize_imports"]
 
 # ---------------------------------------------------------------------------------------------
 # generators
@@ -369,7 +371,8 @@ def compare(ctx, cases, impl, exprs, index, model):
 
 
 def run(ctx):
-    n = 1500 if ctx.quick else 60000
+    cm.check_anchors(ctx, ANCHORS)
+    n = (1500 if ctx.quick else 60000) * ctx.scale
     ctx.coverage["rule"] = ("cases from one seeded PRNG: 40% Import.replace chains, 40% body texts (10% with non-ASCII "
                             "word/non-word neighbours), 20% whole modules through transform_imports; non-trivial = the "
                             "implementation changed the import / text, or the module has an import block; distinct by hash of the case")
